@@ -2,6 +2,7 @@ fn main() {
     let args = vx::Args::parse();
     simx::exec::install_panic_hook();
     let code = match args.prop.as_str() {
+        "C01" if args.part.as_deref() == Some("credit") => simx::c01c::run_check(&args),
         "C01" => simx::c01::run_check(&args),
         "C02" => simx::c02::run_check(&args),
         "C03" => simx::c03::run_check(&args),
